@@ -38,6 +38,16 @@ CLAIMS = {
              "every feasible path. The solver, not a sampler, chooses which iteration takes which exit.",
         technique="differential symbolic execution vs definitional interpreter (CrossHair/z3)",
         design_ref="DESIGN.md section 4 (C05)"),
+    "C07": dict(
+        text="Differential symbolic execution against the definitional interpreter on the exception skeleton family "
+             "(31 throw sites incl. runtime TypeError/ReferenceError, accessors, conversions, constructors, "
+             "call/apply/bind and every callback-taking built-in x handler placement x try/catch/finally shapes x "
+             "exit kind from each block x expression context); which iteration throws and which exit is taken are "
+             "solver variables. Logs (incl. one entry per finally execution), caught values, error classes and "
+             "results must agree on every path. Plus solver-indexed tables for the class of the engine's own runtime "
+             "errors in 4 placements, uncaught throws surfacing as JSError, and line/column shift invariance.",
+        technique="differential symbolic execution vs definitional interpreter (CrossHair/z3)",
+        design_ref="DESIGN.md section 4 (C07)"),
     "C06": dict(
         text="Each real opcode handler (and the compiled compound/update/logical forms through eval) is executed "
              "symbolically against a transcription of the ECMAScript abstract operations: all IEEE doubles and all "
